@@ -1,13 +1,14 @@
 #!/bin/bash
 # usage: tools/matrix.sh [dir-with-patches (default: seeded)] [pattern]
-# For every <dir>/*/patch.diff: apply to $VERIF_REPO (default /repo), run every property's quick
-# check, print the ids (and rules) that report (exit 1; "rule?" = via an undecided obligation),
-# undo the patch. Do not touch the tree while this runs.
+# For every <dir>/*/patch.diff: apply it to the current sources of $VERIF_REPO (default /repo) in
+# memory (loader overlay; the tree is not touched), run every property's quick rules on the result
+# (in parallel) and print the ids (and rules) that report ("rule?" = via an undecided obligation).
+# tools/matrix_one.sh does the same through `git apply` on a real tree.
 cd "$(dirname "$0")/.." || exit 2
 REPO="${VERIF_REPO:-/repo}"
 DIR="${1:-seeded}"; PAT="${2:-*}"
 [ -x bin/rdpgwlint ] || sh ./setup.sh >/dev/null
 for d in $DIR/$PAT/; do
   p="$d/patch.diff"; [ -f "$p" ] || continue
-  echo "$(basename $d): $(tools/matrix_one.sh "$p" "$REPO" 2>/dev/null)"
+  echo "$(basename $d): $(bin/rdpgwlint -patch "$p" -repo "$REPO" 2>&1 | tail -1)"
 done
